@@ -5,7 +5,7 @@ WT=${WT:-/tmp/devwt}
 for d in "$@"; do
   git -C $WT checkout -q -- . ; git -C $WT clean -fdq
   if ! git -C $WT apply "$d" 2>/dev/null; then echo "REFAC $d: does not apply"; continue; fi
-  out=$(/verif/bin/pikocheck -p all -tier probe -repo $WT -verif /verif | grep '^PROBEALL' | cut -c10-)
+  out=$(${BIN:-/verif/bin/pikocheck} -p all -tier probe -repo $WT -verif /verif | grep '^PROBEALL' | cut -c10-)
   echo "REFAC $d: $(echo "$out" | python3 -c "
 import json,sys
 d=json.load(sys.stdin)
